@@ -291,6 +291,29 @@ func c16r2(c *Ctx, id string) {
 	ho, loo := w.Origin(hi), w.Origin(lo)
 	okOps := strings.Contains(ho, ".GetVBucketSeqNos)(") && strings.HasSuffix(ho, ", param(vbID))#0") && loo == "param(offset).SeqNo"
 	c.Check(okOps, id, "lag-operands", sub.Pos(), "server high seqNo of the ranged vBucket − tracked seqNo", "lag operands: "+ho+" − "+loo)
+	// the lag is computed exactly when the high-seqNo query succeeded: the subtraction sits under a nil test of the
+	// error that query returned — not of an error some other call has written over it since
+	var errOrigins []string
+	okErr := false
+	for _, g := range guardsOf(sub.Block()) {
+		v, pol := stripNot(g.Cond, g.Branch)
+		isEq, ok := isNilCompare(v, func(x ssa.Value) bool { return types.Identical(x.Type(), types.Universe.Lookup("error").Type()) })
+		if !ok || isEq != pol {
+			continue // not a test that establishes err == nil here
+		}
+		b := v.(*ssa.BinOp)
+		e := b.X
+		if isNilConst(e) {
+			e = b.Y
+		}
+		o := w.Origin(e)
+		errOrigins = append(errOrigins, o)
+		// the error result of the very call whose first result is the map the high seqNo is read from
+		if strings.HasSuffix(o, "#1") && strings.Contains(w.Origin(hi), strings.TrimSuffix(o, "#1")+"#0") {
+			okErr = true
+		}
+	}
+	c.Check(okErr, id, "lag-error", sub.Pos(), "the lag is computed under err == nil of the high-seqNo query's own error", "the lag computation is not guarded by the error of the high-seqNo query itself (nil tests seen: "+strings.Join(errOrigins, ", ")+"): with another call's error in the same variable the map is used when the query failed, or the lag is withheld although it is known")
 	// lag value emitted = phi(0 | sub)
 	var lagCall ssa.Instruction
 	allInstrs(subFn, func(in ssa.Instruction) {
@@ -410,6 +433,53 @@ func c16r3(c *Ctx, id string) {
 		})
 		c.Check(ok, id, "inc:"+cnt, add.Pos(), fld+" ← "+fld+" + 1", cnt+" does not add 1 to "+fld)
 	}
+	// the counters are written by their own Add* methods only: GetMetrics hands out the live object, so a reader that
+	// totals "into" what it was given (an endpoint summing the per-vBucket counters) inflates a vBucket's counters
+	add := w.Method("couchbase", "ObserverMetric", "AddMutation")
+	if add == nil {
+		return
+	}
+	mt := add.Signature.Recv().Type()
+	if p, isP := mt.Underlying().(*types.Pointer); isP {
+		mt = p.Elem()
+	}
+	stc, isStruct := mt.Underlying().(*types.Struct)
+	if !isStruct {
+		c.Undecided(id, "counter-writers", 0, "the counters' type is not a struct")
+		return
+	}
+	var other []string
+	n := 0
+	own := func(fn *ssa.Function, addr ssa.Value) bool {
+		if r := fn.Signature.Recv(); r != nil && recvTypeName(r.Type()) == recvTypeName(mt) && fn.Pkg == add.Pkg {
+			return true
+		}
+		if a := rootAlloc(addr); a != nil && a.Parent() == fn {
+			return true
+		}
+		return ownCounterObject(fn, addr)
+	}
+	for j := 0; j < stc.NumFields(); j++ {
+		for _, fs := range w.fieldStores(stc.Field(j)) {
+			n++
+			if !own(fs.Fn, fs.Store.Addr) {
+				other = append(other, fname(fs.Fn)+": "+w.Origin(fs.Store.Addr)+" ← "+w.Origin(fs.Store.Val)+" @"+w.pos(fs.Store.Pos()))
+			}
+		}
+	}
+	for _, fn := range w.ModFuncs {
+		allInstrs(fn, func(in ssa.Instruction) {
+			if st, isSt := in.(*ssa.Store); isSt && types.Identical(st.Val.Type(), mt) {
+				n++
+				if _, isAlloc := st.Addr.(*ssa.Alloc); !isAlloc && !own(fn, st.Addr) {
+					other = append(other, fname(fn)+": whole counter object overwritten @"+w.pos(st.Pos()))
+				}
+			}
+		})
+	}
+	sort.Strings(other)
+	c.Check(len(other) == 0, id, "counter-writers", add.Pos(), fmt.Sprintf("the %d stores into the counters are those of the type's own methods (or fill a value still local to its maker)", n),
+		"an observer's live counters are written outside their own Add* methods: "+strings.Join(other, "; "))
 }
 
 func c16r4(c *Ctx, id string) {
@@ -572,4 +642,70 @@ func gaugeHelper(w *World, g *ssa.Function) (int, int, bool) {
 		}
 	})
 	return di, vi, n == 1 && di >= 0 && vi >= 0
+}
+
+// localCell names a variable (or a field path of one) local to a source function and its closures.
+func localCell(v ssa.Value, depth int) (*ssa.Alloc, string) {
+	if depth > 8 {
+		return nil, ""
+	}
+	switch x := v.(type) {
+	case *ssa.Alloc:
+		return x, ""
+	case *ssa.FreeVar:
+		if b, ok := bindingOf(x); ok {
+			return localCell(b, depth+1)
+		}
+	case *ssa.FieldAddr:
+		if a, p := localCell(x.X, depth+1); a != nil {
+			return a, fmt.Sprintf("%s.%d", p, x.Field)
+		}
+	}
+	return nil, ""
+}
+
+// ownCounterObject: the object written at addr is one this function (or its enclosing function) made itself: the
+// pointer it is reached through is read from a local variable — also one captured by a closure, or a field of a local
+// struct — that is only ever assigned freshly allocated objects.
+func ownCounterObject(fn *ssa.Function, addr ssa.Value) bool {
+	base := addr
+	for {
+		if fa, ok := base.(*ssa.FieldAddr); ok {
+			base = fa.X
+			continue
+		}
+		break
+	}
+	if a, _ := localCell(base, 0); a != nil {
+		return true // a struct value living in a local variable
+	}
+	ld, ok := base.(*ssa.UnOp)
+	if !ok {
+		return false
+	}
+	cell, path := localCell(ld.X, 0)
+	if cell == nil {
+		return false
+	}
+	fresh, seen := true, 0
+	var walk func(f *ssa.Function)
+	walk = func(f *ssa.Function) {
+		allInstrs(f, func(in ssa.Instruction) {
+			if st, isSt := in.(*ssa.Store); isSt {
+				if a, p := localCell(st.Addr, 0); a == cell && p == path {
+					seen++
+					if _, isNew := st.Val.(*ssa.Alloc); !isNew && !isNilConst(st.Val) {
+						fresh = false
+					}
+				} else if a == cell && p != path && strings.HasPrefix(path, p) {
+					fresh = false // the enclosing struct is overwritten whole
+				}
+			}
+		})
+		for _, af := range f.AnonFuncs {
+			walk(af)
+		}
+	}
+	walk(rootFn(fn))
+	return fresh && seen > 0
 }
